@@ -119,3 +119,54 @@ def run_block(grid, m, clause):
             print('REPLAY: VIOLATION-CONFIRMED assemble_block_csr: ' + bad)
             return
     print('REPLAY: not reproduced (model input and %d small grids of this shape behave as specified)' % n)
+
+
+def run_wrappers(which):
+    """eye / deprecated assemble / Matrix.__sub__, __rmul__, __truediv__ of the base class against dense numpy (numpy backend)."""
+    import warnings
+    from nutils import matrix
+    from nutils.matrix import Matrix
+    bad = None
+    with matrix.backend('numpy'), warnings.catch_warnings():
+        warnings.simplefilter('ignore')
+        A = matrix.assemble_csr(numpy.array([1., 2., 3.]), numpy.array([0, 2, 3]), numpy.array([0, 2, 1]), 3)
+        B = matrix.assemble_csr(numpy.array([5., 7.]), numpy.array([0, 1, 2]), numpy.array([1, 1]), 3)
+        a, b = A.export('dense'), B.export('dense')
+        try:
+            if which == 'eye':
+                for n in range(0, 5):
+                    d = matrix.eye(n).export('dense')
+                    if d.shape != (n, n) or (d != numpy.eye(n)).any():
+                        bad = 'eye(%d) exports %s' % (n, d.tolist())
+                try:
+                    matrix.eye(-1)
+                    bad = bad or 'eye(-1) is accepted'
+                except ValueError:
+                    pass
+            elif which == 'assemble':
+                d = matrix.assemble(numpy.array([1., 2., 3.]), (numpy.array([0, 0, 1]), numpy.array([0, 2, 1])), (2, 3)).export('dense')
+                if d.tolist() != a.tolist():
+                    bad = 'assemble(data, (rowidx, colidx), (2, 3)) exports %s, expected %s' % (d.tolist(), a.tolist())
+            elif which == '__sub__':
+                d = Matrix.__sub__(A, B).export('dense')
+                if (d != a - b).any():
+                    bad = 'Matrix.__sub__(A, B) exports %s, expected %s' % (d.tolist(), (a - b).tolist())
+            elif which == '__rmul__':
+                d = Matrix.__rmul__(A, 2.5).export('dense')
+                if (d != 2.5 * a).any():
+                    bad = 'Matrix.__rmul__(A, 2.5) exports %s, expected %s' % (d.tolist(), (2.5 * a).tolist())
+            elif which == '__truediv__':
+                d = Matrix.__truediv__(A, 4).export('dense')
+                if (d != a / 4).any():
+                    bad = 'Matrix.__truediv__(A, 4) exports %s, expected %s' % (d.tolist(), (a / 4).tolist())
+                try:
+                    Matrix.__truediv__(A, 0)
+                    bad = bad or 'A / 0 does not raise ZeroDivisionError'
+                except ZeroDivisionError:
+                    pass
+        except Exception as e:
+            bad = 'raised %s: %s' % (type(e).__name__, e)
+    if bad:
+        print('REPLAY: VIOLATION-CONFIRMED %s: %s' % (which, bad))
+    else:
+        print('REPLAY: not reproduced (%s behaves as specified on the sample matrices)' % which)
